@@ -757,6 +757,13 @@ def run_mat(ctx):
         if r["hello"] in hellos and hellos[r["hello"]] != c["secret"]:
             ctx.fail("material/hello-random-collision", "two different secrets give the same hello-random", {"mat_cases": [c]})
         hellos[r["hello"]] = c["secret"]
+        if len(terms) < (2 * 40 if ctx.tier == "quick" else 2 * 150):
+            # from the secret alone: concrete HKDF-SHA256 (coq/C14) -> hello-random, keys, serials, names
+            terms.append("CMatS %s %s %s %s %s %s %s %s" % (
+                hexs(bytes.fromhex(c["secret"])), hexs(bytes.fromhex(r["hello"])),
+                gN(int(r["client"]["d"], 16)), gN(int(r["client"]["serial"], 16)), hexs(bytes.fromhex(r["client"]["cn"])),
+                gN(int(r["server"]["d"], 16)), gN(int(r["server"]["serial"], 16)), hexs(bytes.fromhex(r["server"]["cn"]))))
+            ctx.count(("concrete", c["secret"]), nontrivial=False, kind="mat/from-secret-concrete-hkdf")
         terms.append("CMat %s %s %s %s %s %s %s %s %s" % (
             hexs(bytes.fromhex(r["stream_hello"])), hexs(bytes.fromhex(r["stream_certs"])), hexs(bytes.fromhex(r["hello"])),
             gN(int(r["client"]["d"], 16)), gN(int(r["client"]["serial"], 16)), hexs(bytes.fromhex(r["client"]["cn"])),
@@ -769,8 +776,9 @@ def run_mat(ctx):
     if mm:
         ctx.cov["mismatches"] += len(mm)
         i = mm[0]
-        ctx.broken("correspondence", "derivation model (hello_random / cert_of) and seedtocert.go disagree on %d secret(s)" % len(mm),
-                   {"mat_cases": [cases[i]], "observed": res[i]})
+        ctx.broken("correspondence", "derivation model (hello_random / cert_of over the concrete HKDF-SHA256, and over the "
+                   "driver-supplied streams) and seedtocert.go disagree on %d term(s)" % len(mm),
+                   {"mat_cases": cases[:3]})
 
 
 # ------------------------------------------------------------------ real Listener + Dial over loopback (oracle only)
@@ -912,6 +920,10 @@ def run(ctx):
         "the code between Lock/Unlock and single channel operations are atomic steps (Go memory model; -race in the thorough tier)",
         "the watchdog automaton is tied to hbLoop by measured close times only (real timers)",
     ]
+    # coq/C14 provides the concrete SHA-256 / HMAC / HKDF that Concrete.v instantiates (v) on; its files are built
+    # (not cleaned, not edited) through this property's Makefile
+    if "C14" not in ctx.extra_dirs:
+        ctx.extra_dirs.append("C14")
     ctx.coq_props(props_files=["C16/Props.v", "C16/Refuted.v"])
     rc, out = ctx.coq_make(["C16/Examples.vo"])
     if rc != 0:
@@ -979,4 +991,4 @@ def run(ctx):
     if not only:
         ctx.require_kinds(["read/data-equals-heartbeat", "fc/has-stale-token", "fc/has-blocked", "fc/has-limit",
                            "fc/has-closed-while-blocked", "reg/has-delivered", "reg/has-dup", "reg/has-cancelled",
-                           "lb/has-dup-refused", "wd/closed", "wd/open"])
+                           "lb/has-dup-refused", "wd/closed", "wd/open", "mat/from-secret-concrete-hkdf"])
